@@ -335,7 +335,7 @@ pub fn seed_legacy_device(path: &str, blocks: u64, version: u32, with_checksum: 
     std::fs::write(path, &img).unwrap();
 }
 
-fn self_exe() -> std::path::PathBuf {
+pub fn self_exe() -> std::path::PathBuf {
     std::env::current_exe().unwrap()
 }
 
